@@ -5,6 +5,7 @@ import (
 	"encoding/binary"
 	"fmt"
 	"math"
+	"math/rand"
 	"strconv"
 	"strings"
 
@@ -97,15 +98,16 @@ func parseFloatPLY(data []byte) (*floatPLY, error) {
 	return out, nil
 }
 
-func splatPly(c *run.Ctx) (res run.Result) {
-	r := c.Rng
-	n := splatCount(r, c.Tier)
-	if n > 60 {
-		n = 60
-	}
-	rest := []int{0, 9, 24, 45}[c.Case%4]
-	withNormals := (c.Case/4)%2 == 0
-	class := []string{"unit", "f64", "large", "tiny", "mixed"}[r.Intn(5)]
+// plyCloud is a splat cloud together with the expected value of every PLY property.
+type plyCloud struct {
+	n, rest     int
+	withNormals bool
+	class       string
+	mesh        modeling.Mesh
+	want        map[string][]float64
+}
+
+func genPlyCloud(r *rand.Rand, n, rest int, withNormals bool, class string) *plyCloud {
 	val := func() float64 {
 		cl := class
 		if cl == "mixed" {
@@ -174,39 +176,64 @@ func splatPly(c *run.Ctx) (res run.Result) {
 		scalar(fmt.Sprintf("f_rest_%d", k))
 	}
 	mesh := modeling.NewPointCloud(map[string][]vector4.Float64{modeling.RotationAttribute: rot}, v3data, nil, v1data, nil)
+	return &plyCloud{n: n, rest: rest, withNormals: withNormals, class: class, mesh: mesh, want: want}
+}
 
+func splatPly(c *run.Ctx) (res run.Result) {
+	r := c.Rng
+	n := splatCount(r, c.Tier)
+	if n > 60 {
+		n = 60
+	}
+	rest := []int{0, 9, 24, 45}[c.Case%4]
+	withNormals := (c.Case/4)%2 == 0
+	class := []string{"unit", "f64", "large", "tiny", "mixed"}[r.Intn(5)]
+	pc := genPlyCloud(r, n, rest, withNormals, class)
 	res.Sig = fmt.Sprintf("n%s/rest%d/normals:%v/%s", nBucket(n), rest, withNormals, class)
 	res.Nontrivial = n >= 1
 	res.SetAdd("splatply/configs", fmt.Sprintf("rest%d/normals:%v", rest, withNormals))
 	res.SetAdd("splatply/counts", nBucket(n))
-	input := fmt.Sprintf("cloud of %d splats, %d f_rest, normals %v", n, rest, withNormals)
 
+	exported := checkSplatPly(c, &res, pc, "")
+	if c.Case < 2 && n > 0 {
+		res.Sample = map[string]any{"splats": n, "f_rest": rest, "normals": withNormals, "value_class": class, "export_bytes": exported}
+	}
+	return
+}
+
+// checkSplatPly applies the whole splat-PLY oracle to one cloud: SplatPly.Write, then
+// ply.ReadMesh (the property's observation) and an independent parse of the bytes. ctx is
+// appended to the violation sites. Returns the number of bytes exported.
+func checkSplatPly(c *run.Ctx, res *run.Result, pc *plyCloud, ctx string) (exported int) {
+	n, rest, withNormals, mesh, want := pc.n, pc.rest, pc.withNormals, pc.mesh, pc.want
+	input := fmt.Sprintf("cloud of %d splats, %d f_rest, normals %v", n, rest, withNormals)
 	buf := &bytes.Buffer{}
 	var werr error
 	c.Note("SplatPly.Write " + input)
 	if p := run.Try(func() { werr = (ply.SplatPly{Mesh: mesh}).Write(buf) }); p != nil {
-		res.Violate("panic", "ply.SplatPly.Write", input, p.Value+"\n"+p.Stack, nil)
+		res.Violate("panic", "ply.SplatPly.Write"+ctx, input, p.Value+"\n"+p.Stack, nil)
 		return
 	}
 	if werr != nil {
-		res.Violate("splatply-write-error", "ply.SplatPly.Write", input, "valid splat cloud rejected: "+werr.Error(), nil)
+		res.Violate("splatply-write-error", "ply.SplatPly.Write"+ctx, input, "valid splat cloud rejected: "+werr.Error(), nil)
 		return
 	}
 	data := buf.Bytes()
+	exported = len(data)
 	f32 := func(v float64) float64 { return float64(float32(v)) }
 
 	// (b) independent parse of the exported bytes — runs after the round trip below, whatever its outcome
 	defer func() {
 		if fp, err := parseFloatPLY(data); err != nil {
-			res.Violate("splatply-layout", "ply.SplatPly.Write (bytes vs PLY specification)", input, "the export is not a binary little-endian PLY of float vertex properties: "+err.Error(), nil)
+			res.Violate("splatply-layout", "ply.SplatPly.Write (bytes vs PLY specification)"+ctx, input, "the export is not a binary little-endian PLY of float vertex properties: "+err.Error(), nil)
 		} else {
 			if fp.n != n {
-				res.Violate("splatply-count", "ply.SplatPly.Write (bytes vs PLY specification)", input, fmt.Sprintf("header declares %d vertices for %d splats", fp.n, n), nil)
+				res.Violate("splatply-count", "ply.SplatPly.Write (bytes vs PLY specification)"+ctx, input, fmt.Sprintf("header declares %d vertices for %d splats", fp.n, n), nil)
 			} else {
 				col := map[string]int{}
 				for j, name := range fp.names {
 					if _, dup := col[name]; dup {
-						res.Violate("splatply-layout", "ply.SplatPly.Write (bytes vs PLY specification)", input, "property "+name+" declared twice", nil)
+						res.Violate("splatply-layout", "ply.SplatPly.Write (bytes vs PLY specification)"+ctx, input, "property "+name+" declared twice", nil)
 					}
 					col[name] = j
 				}
@@ -216,7 +243,7 @@ func splatPly(c *run.Ctx) (res run.Result) {
 					}
 					j, ok := col[name]
 					if !ok {
-						res.Violate("splatply-attribute-dropped", "ply.SplatPly.Write (bytes vs PLY specification)", input, "property "+name+" is not in the exported header "+fmt.Sprint(fp.names), nil)
+						res.Violate("splatply-attribute-dropped", "ply.SplatPly.Write (bytes vs PLY specification)"+ctx, input, "property "+name+" is not in the exported header "+fmt.Sprint(fp.names), nil)
 						continue
 					}
 					for i := 0; i < n; i++ {
@@ -225,7 +252,7 @@ func splatPly(c *run.Ctx) (res run.Result) {
 							exp = f32(exp)
 						}
 						if !sameBits(fp.vals[i][j], exp) {
-							res.Violate("splatply-value", "ply.SplatPly.Write (bytes vs PLY specification)", input,
+							res.Violate("splatply-value", "ply.SplatPly.Write (bytes vs PLY specification)"+ctx, input,
 								fmt.Sprintf("property %s of splat %d holds %v, the cloud has %v (float32: %v)", name, i, fp.vals[i][j], w[i], f32(w[i])), nil)
 							break
 						}
@@ -241,14 +268,14 @@ func splatPly(c *run.Ctx) (res run.Result) {
 	var back *modeling.Mesh
 	var rerr error
 	if p := run.Try(func() { back, rerr = ply.ReadMesh(bytes.NewReader(data)) }); p != nil {
-		res.Violate("panic", "ply.SplatPly.Write→ply.ReadMesh", input, p.Value+"\n"+p.Stack, nil)
+		res.Violate("panic", "ply.SplatPly.Write→ply.ReadMesh"+ctx, input, p.Value+"\n"+p.Stack, nil)
 		return
 	}
 	if rerr != nil || back == nil {
-		res.Violate("splatply-read-error", "ply.SplatPly.Write→ply.ReadMesh", input, fmt.Sprintf("the export is rejected by ply.ReadMesh: %v", rerr), nil)
+		res.Violate("splatply-read-error", "ply.SplatPly.Write→ply.ReadMesh"+ctx, input, fmt.Sprintf("the export is rejected by ply.ReadMesh: %v", rerr), nil)
 		return
 	}
-	site := "ply.SplatPly.Write→ply.ReadMesh"
+	site := "ply.SplatPly.Write→ply.ReadMesh" + ctx
 	if back.PrimitiveCount() != n {
 		res.Violate("splatply-count", site, input, fmt.Sprintf("%d points read back, %d written", back.PrimitiveCount(), n), nil)
 		return
@@ -316,9 +343,6 @@ func splatPly(c *run.Ctx) (res run.Result) {
 	check1(modeling.OpacityAttribute, "opacity")
 	for k := 0; k < rest; k++ {
 		check1(fmt.Sprintf("f_rest_%d", k), fmt.Sprintf("f_rest_%d", k))
-	}
-	if c.Case < 2 {
-		res.Sample = map[string]any{"splats": n, "f_rest": rest, "normals": withNormals, "value_class": class, "export_bytes": len(data)}
 	}
 	return
 }
